@@ -136,7 +136,7 @@ Theorem C15_kt_render_partial it text : kt_write_item cfg it = Ok text ->
      forallb safe_kt (c15_item_docs_helpers_first it)).
 Proof.
   intros H. destruct (Decomp_partial _ _ _ (kt_item_decomp _ _ H)) as (ps & Ht & Hd & Hc).
-  exists ps. rewrite c15_sites_docs in Hd. rewrite c15_sites_ok_false in Hc by discriminate. auto.
+  exists ps. rewrite c15_sites_text_line in Hd by discriminate. rewrite c15_sites_ok_false in Hc by discriminate. auto.
 Qed.
 End KTDocs.
 
@@ -549,7 +549,7 @@ Theorem C15_kt_item it text : c15_item_strict C15kt Kotlin it = true ->
     forallb safe_kt (c15_item_docs_helpers_first it).
 Proof.
   intros Hs H. destruct (Decomp_contained _ _ _ (ktn_item_decomp _ _ Hs H)) as (ps & Ht & Hd & Hc).
-  exists ps. rewrite c15_sites_docs in Hd. rewrite c15_sites_ok_false in Hc by discriminate. auto.
+  exists ps. rewrite c15_sites_text_line in Hd by discriminate. rewrite c15_sites_ok_false in Hc by discriminate. auto.
 Qed.
 End KTStrict.
 
